@@ -2,7 +2,7 @@ use std::{
     any::{Any, TypeId},
     result::Result as StdResult,
     string::String as StdString,
-    sync::{Arc, Mutex, RwLock, atomic::AtomicUsize},
+    sync::{Arc, atomic::AtomicUsize},
     usize,
 };
 
@@ -753,3 +753,9 @@ impl GlobalVmState {
         self.spawner.as_ref().map(|s| &**s)
     }
 }
+
+// The locks are the ones of `std` unless the build is instrumented for schedule exploration
+#[cfg(not(gluon_verif))]
+use std::sync::{Mutex, RwLock};
+#[cfg(gluon_verif)]
+use crate::verif::sync::{Mutex, RwLock};
